@@ -36,6 +36,10 @@ func (w *ResponseCapture) WriteHeader(code int) {
 
 // Write computes the written len and stores it in ContentLength.
 func (w *ResponseCapture) Write(b []byte) (int, error) {
+	if w.StatusCode == 0 {
+		// Write implicitly sends a 200 status when WriteHeader was not called.
+		w.StatusCode = http.StatusOK
+	}
 	n, err := w.ResponseWriter.Write(b)
 	w.ContentLength += n
 	return n, err
